@@ -463,7 +463,7 @@ static std::vector<Mode> enum_modes() {
 }
 
 static std::vector<Tk> tokenize(const std::vector<Item> &it, bool dtls = false) {
-    std::vector<Tk> tk; bool w_enc = false; int epoch = 0;
+    std::vector<Tk> tk; bool w_enc = false; int epoch = 0; std::set<int> sent_before;
     for (auto &x : it) {
         Tk k; k.t = item_tok(x);
         if (x.st.msg == pup::M_ALERT && !(x.st.payload.size() == 2 && x.st.payload[0] == 1 && x.st.payload[1] != 0)) k.t = T_OTHER;
@@ -471,11 +471,11 @@ static std::vector<Tk> tokenize(const std::vector<Item> &it, bool dtls = false) 
         k.prot_ok = enc == w_enc; k.enc = enc;
         k.intact = x.st.type_override < 0 && x.st.flip_bit < 0 && !x.forged && !(x.st.msg == pup::M_CCS && !x.st.payload.empty() && x.st.payload != Bytes{ 1 });
         if (dtls) {
-            k.retransmit = x.st.resend && is_hs_item(x);
+            k.retransmit = x.st.resend && is_hs_item(x) && sent_before.count(x.st.msg);   // the puppet re-sends the stored bytes only if it sent this message before; otherwise it builds it
             k.epoch_bad = x.st.epoch_override >= 0 && x.st.epoch_override != epoch; k.epoch_later = x.st.epoch_override > epoch;
             k.seq_bad = x.st.seq_skip != 0 && is_hs_item(x);
         }
-        tk.push_back(k);
+        tk.push_back(k); sent_before.insert(x.st.msg);
         if (x.st.msg == pup::M_CCS) { w_enc = true; epoch++; }
     }
     return tk;
